@@ -928,6 +928,13 @@ def gen_nodeid(rng, n_random):
     for ln in range(0, 65):
         steps.append({"op": "nodeid", "kind": "parse", "bytes": rand_bytes(rng, ln), "tag": "parse_len"})
         steps.append({"op": "nodeid", "kind": "parse", "bytes": [1] * ln, "tag": "parse_len"})
+    # 33..35-byte slices that frame or pad a 32-byte id: RLP string headers (a0, b8 20), zero padding, a SEC1 / multihash-like tag
+    body = rand_bytes(rng, 32)
+    for pre in ([0xa0], [0xb8, 0x20], [0x00], [0x04], [0x20], [0x80], [0x30, 0x78], [0x12, 0x20], [0x1b, 0x20]):
+        steps.append({"op": "nodeid", "kind": "parse", "bytes": pre + body, "tag": "parse_framed"})
+        steps.append({"op": "nodeid", "kind": "parse", "bytes": body + pre, "tag": "parse_framed"})
+    for cut in (1, 2):
+        steps.append({"op": "nodeid", "kind": "parse", "bytes": [0xa0 - cut] + body[cut:], "tag": "parse_framed"})
     hexd = "0123456789abcdef"
     for ln in range(0, 71):
         for pref in ["", "0x", "0X", "0x0x", "x0"]:
@@ -989,6 +996,12 @@ def gen_keys(rng, n_random):
         texty.append([c, c] + rand_bytes(rng, 28) + [c, c])
     texty += [[0x30, 0x78] + rand_bytes(rng, 30), [0x30, 0x58] + rand_bytes(rng, 30), [ord(ch) for ch in "0123456789abcdefABCDEF0123456789"],
               [ord(ch) for ch in "0x" + "a1" * 15], [rng.randrange(0x20, 0x7f) for _ in range(32)], [0x20] * 32, [0x0a] * 32, [0x30] * 32]
+    # secrets whose 32 bytes are themselves a well-formed key container: SEC1 / PKCS#8-like DER (30 1e 02 01 01 04 19 || 25 bytes,
+    # 30 1e 02 01 00 ...), an OCTET STRING header, base64 / base64url text
+    texty += [[0x30, 0x1e, 0x02, 0x01, 0x01, 0x04, 0x19] + rand_bytes(rng, 25), [0x30, 0x1e, 0x02, 0x01, 0x00, 0x04, 0x19] + rand_bytes(rng, 25),
+              [0x30, 0x1e] + rand_bytes(rng, 30), [0x04, 0x1e] + rand_bytes(rng, 30), [0x04, 0x20] + rand_bytes(rng, 30), [0x02, 0x1e] + rand_bytes(rng, 30),
+              [ord(ch) for ch in "QUJDREVGR0hJSktMTU5PUFFSU1RVVldY"], [ord(ch) for ch in "abcdefghijklmnopqrstuvwxyz-_0123"],
+              [0xa0] + rand_bytes(rng, 31), [0x80 + 31] + rand_bytes(rng, 31)]
     for b in texty:
         steps.append({"op": "key_import", "scheme": "secp", "bytes": b, "tag": "texty"})
         steps.append({"op": "key_import", "scheme": "ed", "bytes": b, "tag": "texty"})
@@ -1333,6 +1346,8 @@ def gen_fail(rng, obs="full", part=None):
         ("remove_insert", lambda rng: {"remove": [B("udp")], "insert": [[B("aa"), [1]], [B("tcp6"), [0, 1, 2]]]}),   # valid pair, then an ill-typed one
         ("remove_key", lambda rng: {"key": B("id")}),
         ("set_client_info", lambda rng: {"name": B("n"), "version": B("v"), "build": [[]]}),
+        ("set_client_info", lambda rng: {"name": B("a-client-name-that-is-far-too-long-to-fit-" * 6), "version": B("v1"), "build": []}),
+        ("set_ip", lambda rng: {"ip": [0x20, 1] + [0] * 13 + [7]}),
     ]
     combos = []
     for kt, own in [("k256", "k1"), ("libsecp", "k2"), ("ed", "e1"), ("comb", "k1"), ("comb", "e1"), ("wk256", "k1"), ("wed", "e2"), ("wcomb", "k4"), ("wcomb", "e1")]:
@@ -1355,7 +1370,7 @@ def gen_fail(rng, obs="full", part=None):
         if a.get("pk_of") == "OWN":
             a["pk_of"] = signer
         base = [[B("id"), enc_str(B("v4"))], [B(pk_key(own)), enc_str(KEYS[own]["pk"])], [B("ip"), enc_str([10, 0, 0, 9])],
-                [B("udp"), enc_uint(1)], [B("tcp"), enc_uint(65535)]]
+                [B("udp"), enc_uint(1)], [B("tcp"), enc_uint(65535)], [B("client"), enc_list([enc_str(B("c")), enc_str(B("1"))])]]
         seq = U64MAX if mode == "seqmax" else [rng.choice([1, 127, 255])]
         if mode == "size":
             base = pad_to(rng, seq, sorted(base, key=lambda p: bytes(p[0])), rng.choice([298, 299, 300]), key="zpad") or base
